@@ -37,6 +37,27 @@ def abmfOp (st : Abmf.Store) : Tok → Abmf.Store × String
     | some ue, some rg, some q => (setAccount st ue rg q, "ok")
     | _, _, _ => (st, "bad-op")
   | ["reset", _] => ([], "ok")
+  | ["conc", ue, rg, bal, nconn, nreq, amount] =>
+    -- nconn connections x nreq reservations of `amount` for one account, all at once: with the account step atomic
+    -- (Props.C07.C07_account_step_atomic) any interleaving is a list of steps (C07_concurrent_reservations)
+    (match bytesOfHex ue, rg.toNat?, bal.toNat?, nconn.toNat?, nreq.toNat?, amount.toNat? with
+     | some ue, some rg, some bal, some nconn, some nreq, some amount =>
+       let st0 := setAccount st ue rg ((toString bal).toUTF8.toList.map (·.toNat))
+       let c : Abmf.CCR := { sess := [], reqType := 2, reqNum := 0, action := 0, subType := 1, subData := ue.drop 5, rg := rg,
+                             rsu := amount, usu := 0 }
+       let n := nconn * nreq
+       let rec go : Nat → Abmf.Store → Nat → Nat → Abmf.Store × Nat × Nat
+         | 0, s, g, a => (s, g, a)
+         | k + 1, s, g, a =>
+           match Abmf.handleCCR s c with
+           | (s', .answer _ _ _ (some x) _) => go k s' (g + x) (a + 1)
+           | (s', _) => go k s' g a
+       let (st', granted, answers) := go n st0 0 0
+       let spent : Int := (bal : Int) - (match Abmf.find st' ue rg with
+         | some q => (match q.parse with | some v => v | none => 0)
+         | none => 0)
+       (st', s!"conc answers={answers} granted={granted} spent={spent} {dumpStore st'}")
+     | _, _, _, _, _, _ => (st, "bad-op"))
   | ["ccr", sess, ty, num, act, subT, sub, rg, rsu, usu] =>
     -- `0-`: the Requested-Action AVP is absent; the server decodes the zero value
     match bytesOfHex sess, ty.toNat?, num.toNat?, (if act = "0-" then some 0 else act.toNat?), subT.toNat?, bytesOfHex sub, rg.toNat?,
